@@ -33,6 +33,15 @@ namespace detail {
   {
     const char* err_msg =
       "Pointer arithmetic overflowed a pointer beyond sandbox memory";
+    const uintptr_t max_val = static_cast<uintptr_t>(-1);
+    if constexpr (sizeof(T_Index) > sizeof(uintptr_t)) {
+      // the index type is wider than a pointer: make sure the narrowing below
+      // does not drop any bits
+      dynamic_check(index <= static_cast<T_Index>(max_val), err_msg);
+      if constexpr (std::is_signed_v<T_Index>) {
+        dynamic_check(index >= -static_cast<T_Index>(max_val), err_msg);
+      }
+    }
     uintptr_t magnitude = static_cast<uintptr_t>(index);
     if constexpr (std::is_signed_v<T_Index>) {
       if (index < 0) {
@@ -40,7 +49,6 @@ namespace detail {
         subtract = !subtract;
       }
     }
-    const uintptr_t max_val = static_cast<uintptr_t>(-1);
     dynamic_check(elem_size == 0 || magnitude <= max_val / elem_size, err_msg);
     const uintptr_t offset = magnitude * elem_size;
     if (subtract) {
